@@ -888,9 +888,12 @@ where
             Some(token) => token,
             None => return Err(StrError::end_of_entry()),
         };
-        for sym in Symbols::new(token.as_ref().chars()) {
+        let mut symbols = Symbols::new(token.as_ref().chars());
+        for sym in &mut symbols {
             op(sym)?;
         }
+        // A malformed escape sequence ends the iterator: report it.
+        symbols.ok().map_err(|_| StrError::custom("bad symbol"))?;
         Ok(())
     }
 
@@ -899,9 +902,12 @@ where
         F: FnMut(EntrySymbol) -> Result<(), Self::Error>,
     {
         for token in &mut self.iter {
-            for sym in Symbols::new(token.as_ref().chars()) {
+            let mut symbols = Symbols::new(token.as_ref().chars());
+            for sym in &mut symbols {
                 op(sym.into())?;
             }
+            // A malformed escape sequence ends the iterator: report it.
+            symbols.ok().map_err(|_| StrError::custom("bad symbol"))?;
             op(EntrySymbol::EndOfToken)?;
         }
         Ok(())
@@ -917,11 +923,14 @@ where
         };
         let mut res = <Octets as FromBuilder>::Builder::empty();
 
-        for sym in Symbols::new(token.as_ref().chars()) {
+        let mut symbols = Symbols::new(token.as_ref().chars());
+        for sym in &mut symbols {
             if let Some(data) = convert.process_symbol(sym)? {
                 res.append_slice(data).map_err(Into::into)?;
             }
         }
+        // A malformed escape sequence ends the iterator: report it.
+        symbols.ok().map_err(|_| StrError::custom("bad symbol"))?;
 
         if let Some(data) = convert.process_tail()? {
             res.append_slice(data).map_err(Into::into)?;
@@ -936,11 +945,14 @@ where
     ) -> Result<Self::Octets, Self::Error> {
         let mut res = <Octets as FromBuilder>::Builder::empty();
         for token in &mut self.iter {
-            for sym in Symbols::new(token.as_ref().chars()) {
+            let mut symbols = Symbols::new(token.as_ref().chars());
+            for sym in &mut symbols {
                 if let Some(data) = convert.process_symbol(sym.into())? {
                     res.append_slice(data).map_err(Into::into)?;
                 }
             }
+            // A malformed escape sequence ends the iterator: report it.
+            symbols.ok().map_err(|_| StrError::custom("bad symbol"))?;
         }
         if let Some(data) = convert.process_tail()? {
             res.append_slice(data).map_err(Into::into)?;
@@ -954,12 +966,15 @@ where
             None => return Err(StrError::end_of_entry()),
         };
         let mut res = <Octets as FromBuilder>::Builder::empty();
-        for sym in Symbols::new(token.as_ref().chars()) {
+        let mut symbols = Symbols::new(token.as_ref().chars());
+        for sym in &mut symbols {
             match sym.into_octet() {
                 Ok(ch) => res.append_slice(&[ch]).map_err(Into::into)?,
                 Err(_) => return Err(StrError::custom("bad symbol")),
             }
         }
+        // A malformed escape sequence ends the iterator: report it.
+        symbols.ok().map_err(|_| StrError::custom("bad symbol"))?;
         Ok(<Octets as FromBuilder>::from_builder(res))
     }
 
@@ -995,12 +1010,15 @@ where
         };
         let mut res =
             CharStrBuilder::<<Octets as FromBuilder>::Builder>::new();
-        for sym in Symbols::new(token.as_ref().chars()) {
+        let mut symbols = Symbols::new(token.as_ref().chars());
+        for sym in &mut symbols {
             match sym.into_octet() {
                 Ok(ch) => res.append_slice(&[ch])?,
                 Err(_) => return Err(StrError::custom("bad symbol")),
             }
         }
+        // A malformed escape sequence ends the iterator: report it.
+        symbols.ok().map_err(|_| StrError::custom("bad symbol"))?;
         Ok(res.finish())
     }
 
@@ -1011,7 +1029,8 @@ where
         };
         let mut res = <Octets as FromBuilder>::Builder::empty();
         let mut buf = [0u8; 4];
-        for sym in Symbols::new(token.as_ref().chars()) {
+        let mut symbols = Symbols::new(token.as_ref().chars());
+        for sym in &mut symbols {
             match sym.into_char() {
                 Ok(ch) => res
                     .append_slice(ch.encode_utf8(&mut buf).as_bytes())
@@ -1019,6 +1038,8 @@ where
                 Err(_) => return Err(StrError::custom("bad symbol")),
             }
         }
+        // A malformed escape sequence ends the iterator: report it.
+        symbols.ok().map_err(|_| StrError::custom("bad symbol"))?;
         Ok(Str::from_utf8(<Octets as FromBuilder>::from_builder(res))
             .unwrap())
     }
